@@ -128,14 +128,19 @@ func advance(t *Tape) Step {
 // genHistory: the shared sequential-history generator. weights select the op mix of a profile.
 type mix struct {
 	authz, hybrid, redeem, redeemBad, refresh, refreshOld, refreshForeign, introspect, revoke, revokeBad, advance, password, cc int
+	device, par, jwtBearer, clientChange, rotate, implicit int
 	pkce int // percent of authorisations carrying a challenge
+	pkceBad int // percent of redemptions on PKCE grants using a bad verifier variant
+	mutate int // percent of introspections presenting a mutated credential
 }
 
 func genHistory(t *Tape, k *Knobs, m mix, n int) []Step {
 	var steps []Step
 	nc := len(k.Clients)
 	codes, rts := 0, 0
-	w := []int{m.authz, m.hybrid, m.redeem, m.redeemBad, m.refresh, m.refreshOld, m.refreshForeign, m.introspect, m.revoke, m.revokeBad, m.advance, m.password, m.cc}
+	w := []int{m.authz, m.hybrid, m.redeem, m.redeemBad, m.refresh, m.refreshOld, m.refreshForeign, m.introspect, m.revoke, m.revokeBad, m.advance, m.password, m.cc,
+		m.device, m.par, m.jwtBearer, m.clientChange, m.rotate, m.implicit}
+	devs, pars, secretN := 0, 0, 0
 	for len(steps) < n {
 		switch t.Weighted(w) {
 		case 0, 1:
@@ -165,7 +170,11 @@ func genHistory(t *Tape, k *Knobs, m mix, n int) []Step {
 			if codes == 0 {
 				continue
 			}
-			steps = append(steps, Step{Op: "redeem", C: -1, G: t.Intn(codes * 2)})
+			s := Step{Op: "redeem", C: -1, G: t.Intn(codes * 2)}
+			if t.Chance(m.pkceBad) {
+				s.P = map[string]string{"ver": t.Pick([]string{"wrong", "none", "short", "long", "illegal", "othermethod", "correct"})}
+			}
+			steps = append(steps, s)
 			rts++
 		case 3:
 			if codes == 0 {
@@ -234,6 +243,12 @@ func genHistory(t *Tape, k *Knobs, m mix, n int) []Step {
 			if t.Chance(25) {
 				s.P = map[string]string{"scope": t.Pick([]string{"photos", "users.read", "admin", "openid photos", "mail.read"})}
 			}
+			if t.Chance(m.mutate) {
+				if s.P == nil {
+					s.P = map[string]string{}
+				}
+				s.P["mutate"] = t.Pick([]string{"flipkey", "flipsig", "trunckey", "truncsig", "swapkey", "foreignsecret", "foreignkey-storedsig", "emptykey", "emptysig", "none", "hs256", "header", "payload", "dropsig"})
+			}
 			steps = append(steps, s)
 		case 8:
 			steps = append(steps, Step{Op: "revoke", C: -1, G: t.Intn(60), V: t.Pick([]string{"", "hint_right", "hint_wrong", "hint_garbage"})})
@@ -253,6 +268,63 @@ func genHistory(t *Tape, k *Knobs, m mix, n int) []Step {
 			rts++
 		case 12:
 			steps = append(steps, st("client_credentials", t.Intn(nc), 0, "scope", pickScopes(t, 0, 30)))
+		case 13: // device flow: authz / decide / poll
+			switch {
+			case devs == 0 || t.Chance(25):
+				steps = append(steps, st("device_authz", t.Intn(nc), 0, "scope", pickScopes(t, 40, 70)))
+				devs++
+			case t.Chance(40):
+				steps = append(steps, Step{Op: "device_decide", G: t.Intn(devs * 2), V: t.Pick([]string{"accept", "accept", "accept", "reject"})})
+			default:
+				s := Step{Op: "device_token", C: -1, G: t.Intn(devs * 2)}
+				if t.Chance(15) {
+					s.C = t.Intn(nc)
+				}
+				if t.Chance(5) {
+					s.A = "bad_secret"
+				}
+				steps = append(steps, s)
+				rts++
+			}
+		case 14: // PAR: push / use
+			if pars == 0 || t.Chance(40) {
+				kv := []string{"scope", pickScopes(t, 30, 60)}
+				if t.Chance(m.pkce) {
+					kv = append(kv, "pkce", "S256")
+				}
+				if t.Chance(20) {
+					kv = append(kv, "redirect", "reg:1")
+				}
+				steps = append(steps, st("par_push", t.Intn(nc), 0, kv...))
+				pars++
+			} else {
+				s := Step{Op: "authz_par", C: -1, G: t.Intn(pars * 2), P: map[string]string{}}
+				if t.Chance(15) {
+					s.C = t.Intn(nc)
+				}
+				if t.Chance(30) {
+					s.P["x_scope"] = "admin photos"
+					s.P["x_state"] = "attacker-state-xyz"
+				}
+				if t.Chance(15) {
+					s.P["x_redirect"] = "reg:1"
+				}
+				steps = append(steps, s)
+				codes++
+			}
+		case 15:
+			steps = append(steps, Step{Op: "jwt_bearer", C: t.Intn(2), D: int64(t.Intn(4)), P: map[string]string{"scope": t.Pick([]string{"", "photos", "mail.read", "photos mail.read"})}})
+		case 16:
+			v := t.Pick([]string{"drop_scope:photos", "drop_scope:offline", "drop_scope:users.*", "drop_scope:openid", "drop_aud:https://api.sim/v1", "drop_all_aud", "drop_grant:refresh_token", "drop_scope:mail.read", "drop_aud:https://files.sim"})
+			steps = append(steps, Step{Op: "client_change", C: t.Intn(nc), V: v})
+		case 17:
+			secretN++
+			v := t.Pick([]string{"keep_old", "keep_old", "forget_old", "drop_rotated", "reverse_rotated"})
+			steps = append(steps, Step{Op: "rotate_global", V: v, P: map[string]string{"new": fmt.Sprintf("rotated-global-secret-%02d-0123456789abcdef", secretN)}})
+		case 18:
+			c := t.Intn(nc)
+			s := st("authz", c, 0, "rt", t.Pick([]string{"token", "id_token token", "id_token"}), "scope", "openid "+pickScopes(t, 0, 20), "nonce", fmt.Sprintf("nonce-%d-abcdefgh", len(steps)))
+			steps = append(steps, s)
 		}
 	}
 	return steps
@@ -291,4 +363,98 @@ func init() {
 		m := mix{authz: 14, hybrid: 6, redeem: 22, redeemBad: 4, refresh: 14, refreshOld: 2, refreshForeign: 1, introspect: 6, revoke: 3, revokeBad: 1, advance: 8, pkce: 25}
 		return &Plan{Profile: "c01", Prop: "C01", K: k, Steps: genHistory(t, &k, m, t.Range(12, 45))}
 	}})
+}
+
+func bearerKeys() []BearerKeySpec {
+	return []BearerKeySpec{
+		{Issuer: "svc-one@sim", Subject: "svc-one", KeyName: "rsa1", KID: "bk-1", Scopes: []string{"photos", "mail.*"}},
+		{Issuer: "svc-two@sim", Subject: "svc-two", KeyName: "ec_p256_1", KID: "bk-2", Scopes: []string{"photos"}},
+	}
+}
+
+func init() {
+	hist := func(name, prop string, m mix, lo, hi int, tweak func(t *Tape, k *Knobs)) {
+		reg(&Profile{Name: name, Prop: prop, Gen: func(t *Tape) *Plan {
+			k := swarmKnobs(t)
+			k.BearerKeys = bearerKeys()
+			if tweak != nil {
+				tweak(t, &k)
+			}
+			return &Plan{Profile: name, Prop: prop, K: k, Steps: genHistory(t, &k, m, t.Range(lo, hi))}
+		}})
+	}
+	// C02: binding of the code to client / redirect_uri / lifetime; immutable grant
+	hist("c02", "C02", mix{authz: 16, hybrid: 5, redeem: 14, redeemBad: 22, refresh: 4, introspect: 6, advance: 12, pkce: 15}, 10, 36, func(t *Tape, k *Knobs) {
+		k.Clients[1].RedirectURIs = append(k.Clients[1].RedirectURIs, "https://app-b.sim/other")
+	})
+	// C03: PKCE attempt sequences under every enforcement configuration
+	hist("c03", "C03", mix{authz: 16, hybrid: 6, redeem: 40, redeemBad: 4, advance: 3, introspect: 1, pkce: 65, pkceBad: 60}, 8, 28, func(t *Tape, k *Knobs) {
+		k.EnforcePKCE = t.Chance(25)
+		k.EnforcePKCEPublic = t.Chance(35)
+		k.PKCEPlain = t.Chance(50)
+	})
+	// C04: rotation and reuse across several independent grants of all origins
+	hist("c04", "C04", mix{authz: 10, hybrid: 4, redeem: 14, refresh: 26, refreshOld: 12, refreshForeign: 3, introspect: 4, revoke: 3, advance: 5, password: 5, device: 14, pkce: 10}, 16, 55, nil)
+	// C05: refresh never widens / crosses clients; registration changes; refresh-scope configuration; scope strategies
+	hist("c05", "C05", mix{authz: 10, hybrid: 3, redeem: 14, refresh: 22, refreshOld: 2, refreshForeign: 10, introspect: 5, advance: 4, password: 6, device: 8, clientChange: 8, cc: 2, pkce: 10}, 14, 50, func(t *Tape, k *Knobs) {
+		k.ScopeStrategy = t.Pick([]string{"", "exact", "hierarchic", "wildcard"})
+		if k.ScopeStrategy == "exact" {
+			for i := range k.Clients {
+				k.Clients[i].Scopes = append(k.Clients[i].Scopes, "users.read")
+			}
+		}
+		if t.Chance(30) {
+			k.Clients[0].GrantTypes = removeStr(k.Clients[0].GrantTypes, "refresh_token")
+		}
+	})
+	// C07: every credential kind on both sides of its expiry; lifetime sources incl. per-client overrides
+	hist("c07", "C07", mix{authz: 10, hybrid: 5, implicit: 4, redeem: 12, refresh: 10, refreshOld: 1, introspect: 12, advance: 30, password: 4, cc: 3, device: 12, par: 10, jwtBearer: 3, pkce: 10}, 14, 50, func(t *Tape, k *Knobs) {
+		if t.Chance(50) {
+			k.DeviceLife = int64(t.Range(30, 3600))
+			k.PARLife = int64(t.Range(20, 1200))
+		}
+		if t.Chance(50) {
+			keys := []string{"authorization_code:access_token", "authorization_code:refresh_token", "refresh_token:access_token", "refresh_token:refresh_token", "implicit:access_token",
+				"password:access_token", "password:refresh_token", "client_credentials:access_token", "jwt_bearer:access_token"}
+			ls := map[string]int64{}
+			for i := 0; i < 1+t.Intn(3); i++ {
+				ls[t.Pick(keys)] = int64(t.Range(20, 5000))
+			}
+			k.Clients[t.Intn(2)].Lifespans = ls
+		}
+	})
+	// C08: revocation
+	hist("c08", "C08", mix{authz: 10, hybrid: 2, redeem: 14, refresh: 10, refreshOld: 2, introspect: 6, revoke: 24, revokeBad: 12, advance: 6, password: 5, pkce: 10, mutate: 10}, 14, 48, nil)
+	// C09: introspection truthfulness over arbitrary histories
+	hist("c09", "C09", mix{authz: 8, hybrid: 3, implicit: 3, redeem: 12, redeemBad: 2, refresh: 10, refreshOld: 3, introspect: 40, revoke: 5, advance: 8, password: 4, cc: 3, device: 8, jwtBearer: 3, clientChange: 1, pkce: 10, mutate: 25}, 16, 55, func(t *Tape, k *Knobs) {
+		k.ScopeStrategy = t.Pick([]string{"", "", "exact", "hierarchic"})
+		k.DisableRTValidation = t.Chance(30)
+	})
+	// C16: device grant state machine, reference store and contract-following store
+	hist("c16", "C16", mix{device: 70, advance: 14, introspect: 6, refresh: 6, revoke: 2}, 12, 44, func(t *Tape, k *Knobs) {
+		k.Store = t.Pick([]string{"plain", "contract", "contract", "txc"})
+		if t.Chance(60) {
+			k.DeviceLife = int64(t.Range(30, 1800))
+		}
+	})
+	// C17: PAR
+	hist("c17", "C17", mix{par: 60, authz: 8, redeem: 10, advance: 14, introspect: 3}, 10, 40, func(t *Tape, k *Knobs) {
+		k.PAREnforced = t.Chance(35)
+		if t.Chance(30) {
+			k.PARPrefix = "urn:sim:par:"
+		}
+		if t.Chance(60) {
+			k.PARLife = int64(t.Range(20, 900))
+		}
+	})
+
+	regProp(&PropSpec{ID: "C02", Profiles: []string{"c02"}, Characteristic: []string{"redeem-foreign-client", "redeem-redirect-mismatch"}})
+	regProp(&PropSpec{ID: "C03", Profiles: []string{"c03"}, Characteristic: []string{"pkce-bad-verifier"}})
+	regProp(&PropSpec{ID: "C04", Profiles: []string{"c04"}, Characteristic: []string{"rt-reuse"}})
+	regProp(&PropSpec{ID: "C05", Profiles: []string{"c05"}, Characteristic: []string{"refresh-foreign-client", "refresh-registration-narrowed"}})
+	regProp(&PropSpec{ID: "C07", Profiles: []string{"c07"}, Characteristic: []string{"boundary:"}})
+	regProp(&PropSpec{ID: "C08", Profiles: []string{"c08"}, Characteristic: []string{"revoke-"}})
+	regProp(&PropSpec{ID: "C09", Profiles: []string{"c09"}, Characteristic: []string{"introspect-"}})
+	regProp(&PropSpec{ID: "C16", Profiles: []string{"c16"}, Characteristic: []string{"device-"}})
+	regProp(&PropSpec{ID: "C17", Profiles: []string{"c17"}, Characteristic: []string{"par-"}})
 }
